@@ -65,6 +65,48 @@ CLAIMED = {
         "note": "Trusted: Coq kernel; hand-written model of sweep.py; derivers/excludes are structural (table-driven) in the correspondence; "
                 "set_cache_for_sweep, use_pandas, root-argument computation (C02) not modelled.",
     },
+    "C09": {
+        "design_ref": "DESIGN.md section 5 / C09",
+        "technique": "Coq invariant proof over call/mutation histories (cache_inv: every resident entry equals the uncached evaluation) on a model of Pipeline._run with its cache branch + twin-pipeline differential correspondence",
+        "text": "Theorem C09_cache_transparent: for every lawful cache policy (simple and LRU instances proved lawful), pipeline, choice of cached "
+                "functions and history of calls (full_output, supplied intermediates, surplus/missing keywords) interleaved with "
+                "update_defaults/update_bound/replace, every call that succeeds uncached returns an equal value cached; resident entries are not "
+                "re-executed; the map path is transparent per _get_or_set_cache call. Proved for the repaired code (three fix: commits); the "
+                "code-as-found model is refuted by four witnesses. Cached/uncached twins of real pipelines are run through the same histories.",
+        "note": "Trusted: Coq kernel; hand-written model (uncached twin proved equal to C02's Pipe.run); side condition roots_okb (root_args well-behaved) is "
+                "evaluated per case, not derived; hybrid/disk eviction and shared/parallel caches not modelled (values only compared).",
+    },
+    "C12": {
+        "design_ref": "DESIGN.md section 5 / C12",
+        "technique": "Coq soundness/completeness proofs of a model of the validators + a per-run TRANSLATOR (Python ast -> Coq step list of prepare_run/RunInfo.create/init_store) on whose regenerated term 'all checks precede all effects' is proved by computation + single-fault mutation correspondence",
+        "text": "validate_construct/validate_map accept only well-formed pipelines/requests and reject every listed fault class; a rejected map request has an "
+                "empty call log and (cleanup=False) an empty effect trace. The order of checks and file-system effects in prepare_run is re-extracted "
+                "from /repo's source on every run and the ordering theorem is re-proved on that term; the callee classification is validated by audit "
+                "hooks. Valid cases subjected to each single-fault mutation must raise, run no user function and leave the folder byte-identical. "
+                "Two recorded findings: Pipeline.run detects missing/surplus keywords only after user functions ran.",
+        "note": "Trusted: Coq kernel; hand-written validator models; translator + its Check/Effect/Pure classification table (dynamically validated); zip-fault "
+                "theorems under plain_specs; exception classes only checked by correspondence; scopes/renames/resources/type annotations not modelled.",
+    },
+    "C16": {
+        "design_ref": "DESIGN.md section 5 / C16",
+        "technique": "Coq proof that the dispatch-order model of is_type_compatible decides an inductive declarative subtyping relation (compat <-> sub) + exhaustive/random pair correspondence on real typing objects",
+        "text": "compat is reflexive, Any/missing annotation behave as stated, union source = all / union target = some, compat a b <-> sub (vars_unknown a) b "
+                "for every well-formed annotation (complete description of the code), compat_iff_sub under 'no TypeVar source' (refuted without: recorded "
+                "finding), subb decides sub, pipeline-level accept/reject theorems under stated guards, validation off accepts all; reference proved sound "
+                "against a set denotation on the static fragment. Seven defects repaired (arity, Annotated direction/metadata/unions, Array element, "
+                "constrained TypeVar).",
+        "note": "Trusted: Coq kernel; hand-written models of typing.py and validate_consistent_type_annotations; issubclass as a fixed lattice; forward references, "
+                "variadic tuples, NDArray aliases, tuple output annotations, auto-generated MapSpecs outside the grammar.",
+    },
+    "C19": {
+        "design_ref": "DESIGN.md section 5 / C19",
+        "technique": "Coq proof over a model of the xarray labelling logic (trace_dependencies, mapspec_axes, _xarray coordinates) against a declarative 'carried along axis' relation + correspondence on real xarray.Dataset objects",
+        "text": "dims are the MapSpec axes, a 1-D root input mapped along k is a coordinate on exactly k, zipped inputs form one ':'-joined coordinate, unmapped "
+                "outputs are plain, values are the C01 denotation, selecting the n-th coordinate value returns the denotation at n (partial: xarray's label lookup "
+                "observed, not modelled). Both dataset constructors are compared on real xarray objects incl. .sel on every coordinate value. Three recorded "
+                "findings (zipped coordinate not selectable, axis name reused with different sizes, unmapped n-d array output).",
+        "note": "Trusted: Coq kernel; hand-written model of xarray.py/_mapspec.py labelling; xarray/pandas object construction and merge observed, not modelled (partial).",
+    },
     "C20": {
         "design_ref": "DESIGN.md section 5 / C20",
         "technique": "Coq proof over a hand-written Gallina model of resources.py (exact rational sizes, explicit aliasing state) + per-run differential correspondence (vm_compute)",
